@@ -302,9 +302,10 @@ def encodings(draw, classes, kinds=ALL_ENC):
 # ------------------------------------------------------------------------------------------------
 @st.composite
 def games(draw, kinds=KINDS, enc_kinds=ALL_ENC, regimes=REGIMES, max_teams=8, max_size=8, options=True, cfg_kw=None,
-          order_shapes=None, allow_zero_sigma=False):
+          order_shapes=None, allow_zero_sigma=False, cfg=None):
     """A full valid rate() case: {'cfg', 'teams', 'call', 'classes', 'meta'}."""
-    cfg = draw(configs(kinds=kinds, **(cfg_kw or {})))
+    if cfg is None:
+        cfg = draw(configs(kinds=kinds, **(cfg_kw or {})))
     sizes = draw(shapes(max_teams=max_teams, max_size=max_size))
     opts = draw(call_options(cfg)) if options else {}
     tau_eff = cfg["tau"] if opts.get("tau") is None else opts["tau"]
